@@ -144,6 +144,19 @@ func runC02(c *runCtx) {
 			c.stats.note("seed", s.data, len(s.data), true)
 			c.emit("c02", resultLine(m), "noerr", hx(s.data[:min(len(s.data), 48)]))
 		}
+		// the same content behind a byte-order mark (several binary formats tolerate one), and through the reader
+		for bi, bm := range [][]byte{{0xEF, 0xBB, 0xBF}, {0xFF, 0xFE}, {0xFE, 0xFF}, {0, 0, 0xFE, 0xFF}} {
+			if len(s.data) > 3000 {
+				break
+			}
+			y := cat(bm, s.data)
+			mimetype.SetLimit([]uint32{3072, 0, 64, 3072}[bi])
+			if mb, err := mimetype.DetectReader(bytes.NewReader(y)); mb != nil && err == nil {
+				c.stats.note("seed+bom", y, len(y), true)
+				c.emit("c02", resultLine(mb), "noerr", hx(y[:min(len(y), 48)]))
+			}
+		}
+		mimetype.SetLimit(3072)
 	}
 	// (c) error paths: the value must be exactly application/octet-stream
 	for _, lim := range []uint32{3072, 0, 4} {
@@ -306,6 +319,26 @@ func runC15(c *runCtx) {
 					}
 				}
 				break
+			}
+		}
+	}
+	// formats registered at run time (this process is about to end: the enlarged tree disturbs nothing): aliases in
+	// the order the caller gives them, names that were looked up (and missed) before being registered, registration
+	// through a node's Extend method
+	if c.shard == 0 {
+		never := func([]byte, uint32) bool { return false }
+		for _, n := range []string{"application/x-verif-c15", "application/zz-c15", "application/mm-c15", "application/aa-c15", "text/x-verif-c15b", "text/x-verif-c15b-alias"} {
+			if mimetype.Lookup(n) != nil {
+				c.propfail("C15", fmt.Sprintf("Lookup(%q) finds something before the name is registered", n))
+			}
+		}
+		mimetype.Extend(never, "application/x-verif-c15", ".c15", "application/zz-c15", "application/mm-c15", "application/aa-c15")
+		mimetype.Lookup("text/plain").Extend(never, "text/x-verif-c15b", ".b", "text/x-verif-c15b-alias")
+		for _, n := range []string{"application/x-verif-c15", "application/zz-c15", "application/mm-c15", "application/aa-c15", "text/x-verif-c15b", "text/x-verif-c15b-alias"} {
+			l := mimetype.Lookup(n)
+			c.stats.note("extended-name", []byte(n), len(n), true)
+			if l == nil || !l.Is(n) || !l.Is(strings.ToUpper(n)) || !l.Is(" "+n+"; q=1") || !mimetype.EqualsAny(n, "x/y", strings.ToUpper(n)) {
+				c.propfail("C15", fmt.Sprintf("a name registered through Extend does not resolve through Lookup to a format that Is that name: Lookup(%q)=%v", n, l))
 			}
 		}
 	}
